@@ -319,6 +319,9 @@ type onode struct {
 	startApplied     uint64
 	prevMaxDelivered uint64           // highest height handed to an earlier incarnation of this node
 	reported         map[uint64]int64 // height -> fake time at which ReportState was issued
+	snapAtStart      uint64           // raft: index of the snapshot the log of this incarnation starts from
+	recordedAtStart  uint64           // raft: applied index recorded on disk when this incarnation started
+	replayChecked    bool
 }
 
 func (n *onode) nonceOf(addr string) uint64 {
@@ -461,6 +464,10 @@ func (c *cluster) startNode(n *onode) error {
 	n.ord = ord
 	n.alive = true
 	n.startApplied = applied
+	n.replayChecked = false
+	if c.cfg.Kind != "solo" {
+		n.snapAtStart, n.recordedAtStart = etcdraft.VerifRestartState(ord)
+	}
 	if n.lastDelivered > n.prevMaxDelivered {
 		n.prevMaxDelivered = n.lastDelivered
 	}
@@ -553,7 +560,37 @@ func (c *cluster) drain() {
 			}
 			break
 		}
+		// first quiescent point of a restarted incarnation: raft has handed out, without any help from the
+		// network, every entry below the commit index it had persisted
+		c.onReplayFinished(n)
 	}
+}
+
+// onReplayFinished is called at the first quiescent point after a restart. Entries and the commit index are
+// stored before committed entries are published, so every block an earlier incarnation was handed lies
+// below the persisted commit index and raft hands it out again at start-up without the network; the ones
+// above the executed height must therefore have reached the executor again by now:
+// "no entry that was not executed is skipped".
+func (c *cluster) onReplayFinished(n *onode) {
+	if n.replayChecked || n.inc <= 1 || c.cfg.Kind == "solo" {
+		return
+	}
+	n.replayChecked = true
+	c.res.Count("probe_replay_finished_after_restart")
+	if n.prevMaxDelivered <= n.startApplied || n.prevMaxDelivered-n.startApplied > 900 {
+		return
+	}
+	c.res.Count("probe_restart_with_unexecuted_entries_in_log")
+	if n.lastDelivered >= n.prevMaxDelivered {
+		return
+	}
+	discr := ""
+	if n.snapAtStart > n.recordedAtStart {
+		// known family: the snapshot/compaction point follows the minted, not the executed height
+		discr = "log-compacted-beyond-the-executed-height"
+	}
+	c.vio("unexecuted-entries-skipped-after-restart", discr, "node %d incarnation %d restarted at executed height %d; earlier incarnations had been handed heights up to %d, but after replaying its whole log it was handed only up to %d (snapshot index %d, recorded applied index %d at start)",
+		n.id, n.inc, n.startApplied, n.prevMaxDelivered, n.lastDelivered, n.snapAtStart, n.recordedAtStart)
 }
 
 // onDelivery applies the C20 history oracle to one block handed to the executor.
